@@ -696,15 +696,6 @@ def sLine (d : DState) : DState × String :=
   let st := d.sst.settle
   ({ d with sst := st }, showSDom st.dom ++ " ## ok")
 
-def sigsOnly (defs : Reactive.Prog) : Expr → Bool
-  | .lit _ => true
-  | .rd _ i => match defs[i]? with | some (.sig _) => true | _ => false
-  | .add a b => sigsOnly defs a && sigsOnly defs b
-  | .mulc _ a => sigsOnly defs a
-  | .ite c t e => sigsOnly defs c && sigsOnly defs t && sigsOnly defs e
-  | .seq _ _ => false
-  | .wr _ _ => false
-
 def stepLine (d : DState) (line : String) : DState × String :=
   match words line with
   | ["case", n] => ({}, s!"case {n}")
@@ -716,12 +707,15 @@ def stepLine (d : DState) (line : String) : DState × String :=
       match id.toNat?, parseInt v with
       | some id, some v =>
         match d.defs[id]? with
-        | some (.sig _) => if d.sst.disposed then sLine d else sLine { d with sst := d.sst.set id v }
+        | some (.sig _) => if d.sst.disposed then sLine d else ({ d with sst := d.sst.step (.set id v) }, showSDom (d.sst.step (.set id v)).dom ++ " ## ok")
         | _ => (d, "bad-op")
       | _, _ => (d, "bad-op")
     | ["resolve", rid] =>
       match rid.toNat? with
-      | some rid => if rid < d.sst.res.length then sLine { d with sst := d.sst.resolve rid } else (d, "bad-op")
+      | some rid =>
+        if rid < d.sst.res.length then
+          ({ d with sst := d.sst.step (.resolve rid) }, showSDom (d.sst.step (.resolve rid)).dom ++ " ## ok")
+        else (d, "bad-op")
       | none => (d, "bad-op")
     | ["idle"] => sLine d
     | ["dispose"] => if d.sst.disposed then (d, "bad-op") else sLine { d with sst := { d.sst with disposed := true } }
@@ -731,7 +725,7 @@ def stepLine (d : DState) (line : String) : DState × String :=
   | "ares" :: toks =>
     match parseExpr (toks.length + 1) toks with
     | some (b, []) =>
-      if d.view.isSome || d.skip || !(b.readsBelow d.defs.length) || !(sigsOnly d.defs b) then (d, "bad-op") else
+      if d.view.isSome || d.skip || !(b.readsBelow d.defs.length) || !(SView.sigsOnly d.defs b) then (d, "bad-op") else
       ({ d with sst := d.sst.addRes b }, "ok")
     | _ => (d, "bad-op")
   | ["resolve", rid] =>
@@ -744,7 +738,7 @@ def stepLine (d : DState) (line : String) : DState × String :=
     | some v =>
       if d.view.isSome || d.skip then (d, "bad-op") else
       ({ d with st := addSig d.st v, defs := d.defs ++ [.sig v],
-                sst := { d.sst with defs := d.defs ++ [.sig v], sigs := d.sst.sigs ++ [(d.defs.length, v)] } }, "ok")
+                sst := { d.sst with defs := d.defs ++ [.sig v], sigs := SView.setAt d.sst.sigs d.defs.length v } }, "ok")
     | none => (d, "bad-op")
   | "memo" :: toks =>
     match parseExpr (toks.length + 1) toks with
